@@ -32,6 +32,16 @@ class UnsupportedAttribute(Unsupported, AttributeError):
     """A library attribute the model does not provide (hasattr() sees it as absent; the path is poisoned)."""
 
 
+def _sym_hash(obj, const_value):
+    """hash() of a symbolic scalar: constants hash like their value; a genuinely symbolic value used as a set member / dict key
+    cannot be followed (equal values must collide, which object identity would not give) -> the path is inconclusive"""
+    if const_value is not None:
+        return hash(const_value)
+    if _ex.current(optional=True) is not None:
+        raise Unsupported("hash() of a symbolic value (set member / dict key)")
+    return object.__hash__(obj)
+
+
 def missing_attr(real_cls, name, label):
     """__getattr__ of a model class: an attribute the REAL class has but the model lacks makes the path inconclusive (it must not
     look like an AttributeError of the code under analysis); one the real class lacks too is an ordinary AttributeError"""
@@ -396,9 +406,7 @@ class SInt(Sym):
         return bool(SBool(mk_not(mk_eq(self.v, z3.IntVal(0)))))
 
     def __hash__(self):
-        if self.is_const:
-            return hash(self.const())
-        return object.__hash__(self)
+        return _sym_hash(self, self.const() if self.is_const else None)
 
     def _bin(self, o, op, rev=False):
         if isinstance(o, SFloat):
@@ -582,7 +590,11 @@ class SFloat(Sym):
     def __bool__(self):
         return bool(SBool(mk_or(self.nan, mk_not(mk_eq(self.v, rv(0))))))
 
-    __hash__ = object.__hash__
+    def __hash__(self):
+        if self.is_const:
+            c = self.const_value()
+            return _sym_hash(self, float(c) if c == c else ("nan", id(self)))
+        return _sym_hash(self, None)
 
     def _noroot(self):
         if self.root2 is not None:
@@ -791,6 +803,8 @@ class STime(Sym):
     def _short(self):
         return f"{str(self.s)[:50]}" + ("" if self.f is None else f"+{str(self.f)[:20]}")
 
+    # (time stamps are hashed by identity: Config keys its contexts - and with them their window bounds - in a dict; two contexts
+    #  whose symbolic windows happen to be equal stay apart in the model, which a witness with equal windows exposes as a mismatch)
     __hash__ = object.__hash__
 
     @property
@@ -854,6 +868,10 @@ class STime(Sym):
     def __bool__(self):
         # pandas Timestamps are always truthy (used as `if window.starting:`)
         return True
+
+    def __getattr__(self, name):
+        import pandas as _rpd
+        missing_attr(_rpd.Timestamp, name, "pandas.Timestamp")
 
     # calendar attributes (pandas Timestamp API)
     def _cal(self, name):
@@ -939,9 +957,38 @@ class SDelta(Sym):
         s, f = _sub_sf(z3.IntVal(0), None, self.s, self.f)
         return SDelta(s, self.nat, f)
 
+    def __mul__(self, o):
+        """timedelta64 * integer (numpy keeps the unit); other factors are outside the model"""
+        if isinstance(o, bool):
+            o = int(o)
+        if isinstance(o, int):
+            k = z3.IntVal(o)
+        elif isinstance(o, SInt):
+            k = o.v
+        elif isinstance(o, (float, SFloat, SDelta, STime)):
+            raise Unsupported("timedelta64 multiplied by a non-integer")
+        else:
+            return NotImplemented
+        if self.f is None:
+            return SDelta(_arith("*", self.s, k), self.nat)
+        total = self.f * z3.ToReal(k)
+        whole = z3.ToInt(total)
+        return SDelta(_arith("*", self.s, k) + whole, self.nat, total - z3.ToReal(whole))
+
+    __rmul__ = __mul__
+
+    def __abs__(self):
+        n = -self
+        neg = _lex("<", self.s, self.f, z3.IntVal(0), None)
+        return SDelta(mk_if(neg, n.s, self.s), self.nat, None if self.f is None else mk_if(neg, n.f if n.f is not None else rv(0), self.f))
+
     def astype(self, t):
         from . import symnp
-        return symnp.cast_scalar(self, symnp.dtype(t), src=symnp.dtype("timedelta64[ns]"))
+        ndt = symnp.dtype(t)
+        if ndt.kind == "m":
+            # keep the unit with the scalar: a later .astype(float) counts in that unit, not in ns
+            return symnp._DeltaScalar(symnp._coarsen(self, ndt), ndt)
+        return symnp.cast_scalar(self, ndt, src=symnp.dtype("timedelta64[ns]"))
 
 
 def as_sdelta(o):
